@@ -90,6 +90,12 @@ class ExprComparator : public mp::ExprVisitor<ExprComparator, bool> {
   bool VisitImplication(ImplicationExpr e) { return VisitIf(e); }
   bool VisitIteratedLogical(IteratedLogicalExpr e) { return VisitVarArg(e); }
   bool VisitAllDiff(PairwiseExpr e) { return VisitVarArg(e); }
+
+  bool VisitStringLiteral(StringLiteral s) {
+    return std::strcmp(Cast<StringLiteral>(expr_).value(), s.value()) == 0;
+  }
+
+  bool VisitSymbolicIf(SymbolicIfExpr e) { return VisitIf(e); }
 };
 
 bool ExprComparator::VisitPLTerm(PLTerm e) {
@@ -111,15 +117,8 @@ bool ExprComparator::VisitCall(CallExpr e) {
   if (call.function() != e.function() || num_args != e.num_args())
     return false;
   for (int i = 0; i < num_args; ++i) {
-    Expr arg = call.arg(i), other_arg = e.arg(i);
-    if (arg.kind() != other_arg.kind())
-      return false;
-    if (NumericExpr num_arg = Cast<NumericExpr>(arg)) {
-      if (!Equal(num_arg, Cast<NumericExpr>(other_arg)))
-        return false;
-    } else if (std::strcmp(
-            Cast<StringLiteral>(arg).value(),
-            Cast<StringLiteral>(other_arg).value()) != 0)
+    // An argument can be numeric, a string literal or a symbolic if.
+    if (!Equal(call.arg(i), e.arg(i)))
       return false;
   }
   return true;
@@ -237,6 +236,8 @@ class ExprHasher : public mp::ExprVisitor<ExprHasher, size_t> {
   size_t VisitImplication(ImplicationExpr e) { return VisitIf(e); }
   size_t VisitIteratedLogical(IteratedLogicalExpr e) { return VisitVarArg(e); }
   size_t VisitAllDiff(PairwiseExpr e) { return VisitVarArg(e); }
+
+  size_t VisitSymbolicIf(SymbolicIfExpr e) { return VisitIf(e); }
 
   size_t VisitStringLiteral(StringLiteral s) {
     size_t hash = Hash(s);
